@@ -8,48 +8,84 @@
              Observed: status, NextInstance before/after, store before/after, the content hashes
              of the certificates now in the poller's store from the old NextInstance on, and the
              requests the responder received.
-   The model result m = Poll(next0, responder) is computed from the logged responder only.       *)
+   The model result m = Poll(next0, responder) is computed from the logged responder only.
+   Histories in which the node's OWN store advances as well (driver: TestPollerLA) use
+     ResetLA       a fresh node: its store (all encodings) and a fresh poller
+     LocalAdvance  the node's own consensus stored the next certificates of the honest chain (encodings logged)
+     CatchUp       the public Poller.CatchUp was called
+     PollLA        like Poll; `la` = the encodings the node stored locally while request k was in flight (the
+                   responder does it on receiving the request); observed: the whole store afterwards
+   and are checked against Poller!CatchUpN / PollN with the model node n = [next, lag = 0, S].  ptab / stab are
+   content hashes of Poller.PowerTable and of the table the node's own store gives for NextInstance.            *)
 EXTENDS Poller, Json, TLC, TLCExt
 CONSTANT TraceFile
-VARIABLES l, next, obs, bad
-tvars == <<l, next, obs, bad>>
+VARIABLES l, next, obs, bad, node
+tvars == <<l, next, obs, bad, node>>
 
 TraceLog == ndJsonDeserialize(TraceFile)
 Ev == TraceLog[l]
 NoObs == [kind |-> "none"]
 IsEvent(e) == l <= Len(TraceLog) /\ TraceLog[l].ev = e /\ l' = l + 1
 
-TInit == l = 1 /\ next = 0 /\ obs = NoObs /\ bad = {}
-TrReset == IsEvent("Reset") /\ next' = Ev.next /\ obs' = NoObs
+NoNode == [next |-> 0, lag |-> 0, S |-> <<>>]
+TInit == l = 1 /\ next = 0 /\ obs = NoObs /\ bad = {} /\ node = NoNode
+TrReset == IsEvent("Reset") /\ next' = Ev.next /\ obs' = NoObs /\ UNCHANGED node
 Responder == IF Ev.type = "honest" THEN [type |-> "honest", pend |-> Ev.pend, base |-> Ev.base, encs |-> Ev.encs]
              ELSE [type |-> "concrete", resps |-> Ev.resps]
-TrPoll == /\ IsEvent("Poll")
+TrPoll == /\ IsEvent("Poll") /\ UNCHANGED node
           /\ next' = Ev.next1
           /\ obs' = [kind |-> "Poll", type |-> Ev.type, sync |-> (Ev.next0 = next /\ Ev.latest0 = next),
                      m |-> Poll(Ev.next0, Responder),
                      o |-> [status |-> Ev.status, next0 |-> Ev.next0, next1 |-> Ev.next1, latest1 |-> Ev.latest1,
                             stored |-> Ev.stored, reqs |-> Ev.reqs, recv |-> Ev.recv, newc |-> Ev.newc, interr |-> Ev.interr]]
-TNext == TrReset \/ TrPoll
+\* ---- the node across local store advances
+InSync(nx, st) == nx = node.next /\ st = node.S
+TrResetLA == /\ IsEvent("ResetLA") /\ UNCHANGED next
+             /\ node' = [next |-> Ev.next, lag |-> 0, S |-> Ev.store]
+             /\ obs' = [kind |-> "ResetLA", tab |-> (Ev.ptab = Ev.stab)]
+TrLocalAdvance == /\ IsEvent("LocalAdvance") /\ UNCHANGED next
+                  /\ node' = LocalAdvanceN(node, Ev.encs)
+                  /\ obs' = [kind |-> "LocalAdvance", sync |-> (Ev.own1 = Len(node.S) + Len(Ev.encs) /\ Ev.next = node.next)]
+TrCatchUp == /\ IsEvent("CatchUp") /\ UNCHANGED next
+             /\ LET m == CatchUpN(node, NoEnv) IN
+                  /\ obs' = [kind |-> "CatchUp", sync |-> InSync(Ev.next0, Ev.store0), tab |-> (Ev.ptab = Ev.stab),
+                             ok |-> (~Ev.interr /\ Ev.next1 = m.next /\ Ev.progress = m.next - node.next)]
+                  /\ node' = [m EXCEPT !.next = Ev.next1]
+TrPollLA == /\ IsEvent("PollLA") /\ UNCHANGED next
+            /\ node' = [next |-> Ev.next1, lag |-> 0, S |-> Ev.store1]
+            /\ obs' = [kind |-> "PollLA", type |-> Ev.type, sync |-> InSync(Ev.next0, Ev.store0), tab |-> (Ev.interr \/ Ev.ptab = Ev.stab),
+                       m |-> PollN(node, Responder, Ev.la, NoEnv),
+                       o |-> [status |-> Ev.status, next0 |-> Ev.next0, next1 |-> Ev.next1, stored |-> Ev.store1,
+                              reqs |-> Ev.reqs, recv |-> Ev.recv, newc |-> Ev.newc, interr |-> Ev.interr]]
+TNext == TrReset \/ TrPoll \/ TrResetLA \/ TrLocalAdvance \/ TrCatchUp \/ TrPollLA
 
 \* ------------------------------------------------------------------ property monitors (C16)
 Polled == obs.kind = "Poll"
-C16_PollerStoresOnlyValid == Polled => StoresOnlyValid(obs.m, obs.o)
-C16_PollerAdvancesByPrefix == Polled => AdvancesByPrefix(obs.o.next0, obs.m, obs.o) /\ obs.o.latest1 = obs.o.next1
-C16_PollerStatus == Polled => StatusIllegalIff(obs.m, obs.o)
+PolledLA == obs.kind = "PollLA"
+C16_PollerStoresOnlyValid == /\ Polled => StoresOnlyValid(obs.m, obs.o)
+                             /\ PolledLA => StoresOnlyValidN(obs.m, obs.o)
+C16_PollerAdvancesByPrefix == /\ Polled => AdvancesByPrefix(obs.o.next0, obs.m, obs.o) /\ obs.o.latest1 = obs.o.next1
+                              /\ PolledLA => AdvancesByPrefixN(obs.m, obs.o)
+C16_PollerStatus == (Polled \/ PolledLA) => StatusIllegalIff(obs.m, obs.o)
 \* ------------------------------------------------------------------ conformance
-Conf_PollerSync == Polled => obs.sync
-Conf_PollerStatus == Polled => obs.o.status = obs.m.status /\ ~obs.o.interr /\ obs.o.recv = obs.m.recv /\ obs.o.newc = obs.m.recv
-Conf_PollerRequests == (Polled /\ obs.type = "concrete") =>
+Conf_PollerSync == obs.kind \in {"Poll", "PollLA", "CatchUp", "LocalAdvance"} => obs.sync
+\* the poller's table is the table of NextInstance (internal state: a stale table is judged by the C16_ clauses
+\* of the polls that use it, here it is only "the code no longer behaves like the spec")
+Conf_PollerTable == obs.kind \in {"ResetLA", "CatchUp", "PollLA"} => obs.tab
+Conf_CatchUp == obs.kind = "CatchUp" => obs.ok
+Conf_PollerStatus == (Polled \/ PolledLA) => obs.o.status = obs.m.status /\ ~obs.o.interr /\ obs.o.recv = obs.m.recv /\ obs.o.newc = obs.m.newc
+Conf_PollerRequests == ((Polled \/ PolledLA) /\ obs.type = "concrete") =>
                           /\ [i \in DOMAIN obs.o.reqs |-> obs.o.reqs[i].first] = obs.m.reqs
                           /\ \A i \in DOMAIN obs.o.reqs : obs.o.reqs[i].limit = ReqLimit /\ ~obs.o.reqs[i].pt
 
 Clauses == {"C16_PollerStoresOnlyValid", "C16_PollerAdvancesByPrefix", "C16_PollerStatus",
-            "Conf_PollerSync", "Conf_PollerStatus", "Conf_PollerRequests"}
+            "Conf_PollerSync", "Conf_PollerStatus", "Conf_PollerRequests", "Conf_PollerTable", "Conf_CatchUp"}
 Holds(c) == CASE c = "C16_PollerStoresOnlyValid" -> C16_PollerStoresOnlyValid
               [] c = "C16_PollerAdvancesByPrefix" -> C16_PollerAdvancesByPrefix
               [] c = "C16_PollerStatus" -> C16_PollerStatus
               [] c = "Conf_PollerSync" -> Conf_PollerSync [] c = "Conf_PollerStatus" -> Conf_PollerStatus
               [] c = "Conf_PollerRequests" -> Conf_PollerRequests
+              [] c = "Conf_PollerTable" -> Conf_PollerTable [] c = "Conf_CatchUp" -> Conf_CatchUp
 TStep == /\ TNext
          /\ LET nb == {c \in Clauses : ~(Holds(c))'} IN
               /\ bad' = bad \cup {<<l, c>> : c \in nb}
